@@ -115,6 +115,13 @@ func (p *c02Parked) release() int {
 	return len(p.arr)
 }
 
+func c02Order(late bool) string {
+	if late {
+		return "after-new-registration"
+	}
+	return "free"
+}
+
 func c02InformerCount(m *c02Mon) int {
 	return len(kem.VerifC02Describe(m.mgr.GetMonitor(m.id)))
 }
@@ -129,6 +136,7 @@ func (e *c02Env) restartInProcess(m *c02Mon, late bool) bool {
 		p = c02Park(m.id)
 	}
 	old := m.mgr.GetMonitor(m.id)
+	e.c.Op(fmt.Sprintf("cleanup %s %d", c02Order(late), m.spec.id), "ok")
 	_ = m.mgr.StopMonitor(m.id)
 	e.c.Op(fmt.Sprintf("stop %d", m.spec.id), "ok")
 	e.setActive(nil)
@@ -178,6 +186,7 @@ func (e *c02Env) nsBounce(h *c02Hist, m *c02Mon, ns int, late bool) {
 		p = c02Park(m.id)
 	}
 	h.nsOps += 2
+	e.c.Op(fmt.Sprintf("cleanup %s %d", c02Order(late), m.spec.id), "ok")
 	if h.rng.Bool() {
 		e.nsSetOp(ns, 0)
 	} else {
